@@ -494,6 +494,7 @@ type fatCase struct {
 	Ops     []fsdrive.Op `json:"ops,omitempty"` // replay: execute exactly these
 	Handles bool         `json:"handles,omitempty"`
 	Reopen  int          `json:"reopen,omitempty"` // re-open comparison every k steps
+	Resess  int          `json:"resess,omitempty"` // the history goes on in a new session (image re-opened read-write) every k steps
 	MaxFile int          `json:"max_file,omitempty"`
 	Avoid   []string     `json:"avoid,omitempty"`
 	Alphabet []fsdrive.Op `json:"alphabet,omitempty"`
@@ -563,6 +564,9 @@ type fatRun struct {
 	st     *monstore.Store
 	drv    *fsdrive.Driver
 	ckSteps int
+	// resession closes every handle and goes on with the image opened again from its bytes (read-write): the
+	// rest of the history runs in a new session, as after a restart of the program that uses the library
+	resession func() (filesystem.FileSystem, bool)
 }
 
 var c08ViolationRules = map[string]bool{
@@ -855,6 +859,24 @@ func runFatCase(prop string, c core.Case, env *core.Env) core.Result {
 		return true
 	}
 
+	fr.resession = func() (filesystem.FileSystem, bool) {
+		drv.CloseAll()
+		var fs2 filesystem.FileSystem
+		var e error
+		if pi := core.Guard(func() { fs2, e = fatRead(st, v, false) }); pi != nil {
+			drv.Fail("reopen-panic", pi.Top+":"+pi.Class, "%s.Read of the image panicked: %s", v.Type, pi.Msg)
+			return nil, false
+		}
+		if e != nil {
+			drv.Fail("reopen-error", "read-refuses-own-image", "%s.Read of the image the library wrote failed: %v", v.Type, e)
+			return nil, false
+		}
+		fs = fs2
+		drv.FS = fs2
+		res.Count("sessions.continued_on_reopened_image", 1)
+		res.Mark("history continued in a new session on the re-opened image")
+		return fs2, true
+	}
 	switch fc.Mode {
 	case "replay":
 		for _, op := range fc.Ops {
@@ -874,6 +896,11 @@ func runFatCase(prop string, c core.Case, env *core.Env) core.Result {
 			g.MaxFile = 40 * cs
 		}
 		for i := 0; i < fc.Steps; i++ {
+			if fc.Resess > 0 && i > 0 && i%fc.Resess == 0 {
+				if _, ok := fr.resession(); !ok {
+					break
+				}
+			}
 			if !step(g.Next(drv)) {
 				break
 			}
@@ -1080,6 +1107,15 @@ func fatRefill(fr *fatRun, fs filesystem.FileSystem, cs int, step func(fsdrive.O
 		}
 		if !drv.Compare(fs, "live", nil) || !reopen("cycle") {
 			return
+		}
+		// every other refill happens in a new session: what was released must be free for a program that
+		// opens the image again, too
+		if cyc%2 == 0 && cyc+1 < cycles {
+			fs2, ok := fr.resession()
+			if !ok {
+				return
+			}
+			fs = fs2
 		}
 	}
 }
